@@ -10,6 +10,7 @@ import (
 	"time"
 
 	"github.com/netsampler/goflow2/v2/decoders/netflow"
+	"github.com/netsampler/goflow2/v2/producer"
 	protoproducer "github.com/netsampler/goflow2/v2/producer/proto"
 	"github.com/netsampler/goflow2/v2/utils"
 	"gopkg.in/yaml.v3"
@@ -21,6 +22,7 @@ func init() {
 	ops["cfg"] = opCfg
 	ops["pipe"] = opPipe
 	ops["pkt"] = opPkt
+	ops["poison"] = opPoison
 }
 
 // persistent across `reset`: compiled configurations
@@ -115,6 +117,58 @@ func (c *captureFormat) Format(data interface{}) ([]byte, []byte, error) {
 type pipeEntry struct {
 	pipe utils.FlowPipe
 	cap  *captureFormat
+	prod producer.ProducerInterface
+}
+
+// poison <pid> <n>: Commit() n fully populated messages into the producer's message pool, so that
+// the next Get() hands back an object with every column, every repeated field and unknown fields set
+func opPoison(st *state, args []string) []string {
+	if len(args) != 2 {
+		return []string{"bad-op"}
+	}
+	pe, ok := st.extra["pipe:"+args[0]].(*pipeEntry)
+	n, err := strconv.Atoi(args[1])
+	if !ok || err != nil {
+		return []string{"bad-op"}
+	}
+	var set []producer.ProducerMessage
+	for i := 0; i < n; i++ {
+		m := &protoproducer.ProtoProducerMessage{}
+		v := reflect.ValueOf(&m.FlowMessage).Elem()
+		t := v.Type()
+		for j := 0; j < t.NumField(); j++ {
+			f := t.Field(j)
+			if !f.IsExported() {
+				continue
+			}
+			fv := v.Field(j)
+			switch fv.Kind() {
+			case reflect.Uint32, reflect.Uint64:
+				fv.SetUint(uint64(0xA5A5A500 + j))
+			case reflect.Int32:
+				fv.SetInt(4)
+			case reflect.Slice:
+				switch fv.Type().Elem().Kind() {
+				case reflect.Uint8:
+					fv.SetBytes([]byte{0xde, 0xad, 0xbe, 0xef, byte(j)})
+				case reflect.Uint32:
+					fv.Set(reflect.ValueOf([]uint32{0xdead, uint32(j)}))
+				case reflect.Int32:
+					s := reflect.MakeSlice(fv.Type(), 2, 2)
+					s.Index(0).SetInt(9)
+					s.Index(1).SetInt(3)
+					fv.Set(s)
+				case reflect.Slice:
+					fv.Set(reflect.ValueOf([][]byte{{0xba, 0xad}, {0xf0, 0x0d, byte(j)}}))
+				}
+			}
+		}
+		// custom (unknown) fields: varint 1000 and bytes 1001
+		m.ProtoReflect().SetUnknown([]byte{0xc0, 0x3e, 0x2a, 0xca, 0x3e, 0x03, 0x61, 0x62, 0x63})
+		set = append(set, m)
+	}
+	pe.prod.Commit(set)
+	return []string{"res ok"}
 }
 
 func opPipe(st *state, args []string) []string {
@@ -148,7 +202,7 @@ func opPipe(st *state, args []string) []string {
 	default:
 		return []string{"bad-op"}
 	}
-	st.extra["pipe:"+args[0]] = &pipeEntry{p, capf}
+	st.extra["pipe:"+args[0]] = &pipeEntry{p, capf, prod}
 	return []string{"res ok"}
 }
 
